@@ -9,7 +9,9 @@ spec/cabi/CStr.tla        Go string / []byte <-> C buffer law
 binding: the driver groups the TLC-printed shapes by the spec's classification state and picks representatives per
          (state x call shape); for each case it generates C (callee echoing every field, caller invoking a Go callback)
          and Go (binding sub-package + main); llgo builds the bundle, the run's output is compared field by field with
-         what was written on the other side (identity law).  The same C file driven by a C main (gcc, and clang-14
+         what was written on the other side (identity law).  A bundle that llgo cannot compile is bisected to the
+         single case responsible (a compiler crash on a C-compatible signature is reported as a violation).
+harness/c09/zz_verif_c09_test.go  in-process drift report (thorough): TypeInfoAmd64.GetTypeInfo vs SysVAbi.Classify.  The same C file driven by a C main (gcc, and clang-14
          callee + gcc caller) must satisfy the same expectations, else the generator is wrong (exit 2).
 Only the host ABI (x86-64 System V) can be executed here.
 """
@@ -924,7 +926,10 @@ def check(chk):
         "structs), grouped by the spec's classification state (class vector, per-eightbyte mix/padding, compound kind, "
         "nested tail padding%s); call shapes = TLC's f(pre..., S, i64, f64) with pre over {int,float}^0..8 plus saturating "
         "prefixes, keyed by (class vector, #int, #float, result kind); one case = one (shape, call shape); every case is "
-        "executed as Go->C argument, C->Go result, C->Go callback parameter, Go callback result; evaluations = compared "
+        "executed as Go->C argument (arg), C->Go result (res), C->Go callback parameter (cbarg), Go callback result (cbres), and "
+        "the caller's own copy after the callee overwrote its by-value parameter (keep, cbkeep); results are the struct itself "
+        "or a fixed MEMORY-class struct (hidden pointer + register-class argument); plus fixed calls passing scalars of every "
+        "width in registers and on the stack with alternating signs; plus the CStr strings; evaluations = compared "
         "(case, direction, optimisation level) lines; distinct_nontrivial = distinct (classification state | call state) "
         "classes executed whose struct has >= 2 scalar leaves"
         % ((3, "; thorough: size + content of every 4-byte word") if thorough else (2, "")))
